@@ -11,6 +11,7 @@ mod gen {
     pub mod operands;
     pub mod decode;
     pub mod builder;
+    pub mod reflect;
 }
 mod proj;
 mod dump;
@@ -21,6 +22,8 @@ mod loader;
 mod module;
 mod bdrive;
 mod preds;
+mod storage;
+mod tables;
 
 fn main() {
     util::install_panic_hook();
@@ -38,6 +41,8 @@ fn main() {
         "drive-module" => module::drive(rest),
         "drive-builder" => bdrive::drive(rest),
         "drive-preds" => preds::drive(rest),
+        "drive-storage" => storage::drive(rest),
+        "drive-tables" => tables::drive(rest),
         other => {
             eprintln!("vh: unknown subcommand {}", other);
             std::process::exit(2);
